@@ -7,6 +7,7 @@ import (
 	"runtime/debug"
 	"sort"
 	"strings"
+	"sync"
 	"testing"
 	"time"
 
@@ -28,32 +29,34 @@ type RootSpec struct {
 
 // Config is a complete scan scenario: input + configuration + every simulator decision.
 type Config struct {
-	Roots           []RootSpec  `json:"roots"`
-	Extractors      []ExtSpec   `json:"extractors"`
-	Standalone      []StandSpec `json:"standalone,omitempty"`
-	Detectors       []DetSpec   `json:"detectors,omitempty"`
-	DirsToSkip      []string    `json:"dirs_to_skip,omitempty"` // root-relative
-	SkipRegex       string      `json:"skip_regex,omitempty"`
-	SkipGlob        string      `json:"skip_glob,omitempty"`
-	UseGitignore    bool        `json:"use_gitignore,omitempty"`
-	PathsToExtract  []string    `json:"paths_to_extract,omitempty"` // root-relative
+	Roots          []RootSpec  `json:"roots"`
+	Extractors     []ExtSpec   `json:"extractors"`
+	Standalone     []StandSpec `json:"standalone,omitempty"`
+	Detectors      []DetSpec   `json:"detectors,omitempty"`
+	DirsToSkip     []string    `json:"dirs_to_skip,omitempty"` // root-relative
+	SkipRegex      string      `json:"skip_regex,omitempty"`
+	SkipGlob       string      `json:"skip_glob,omitempty"`
+	UseGitignore   bool        `json:"use_gitignore,omitempty"`
+	PathsToExtract []string    `json:"paths_to_extract,omitempty"` // root-relative
 	// ExactInodeLimit (C09): the fault runs use MaxInodes = the number of inodes the fault-free run
 	// visited, i.e. a limit the tree exactly fits in: a contained fault must not push the scan over it.
 	ExactInodeLimit bool `json:"exact_inode_limit,omitempty"`
 	// PathsRoot is the index of the root under which DirsToSkip and PathsToExtract are spelled
 	// as absolute paths when that root has a Path (default: the first root).
-	PathsRoot int `json:"paths_root,omitempty"`
-	IgnoreSubDirs   bool        `json:"ignore_sub_dirs,omitempty"`
-	MaxFileSize     int         `json:"max_file_size,omitempty"`
-	MaxInodes       int         `json:"max_inodes,omitempty"`
-	ReadSymlinks    bool        `json:"read_symlinks,omitempty"`
-	StoreAbs        bool        `json:"store_abs,omitempty"`
-	ErrorOnFSErrors bool        `json:"error_on_fs_errors,omitempty"`
-	Disk            DiskPlan    `json:"disk"`
+	PathsRoot       int      `json:"paths_root,omitempty"`
+	IgnoreSubDirs   bool     `json:"ignore_sub_dirs,omitempty"`
+	MaxFileSize     int      `json:"max_file_size,omitempty"`
+	MaxInodes       int      `json:"max_inodes,omitempty"`
+	ReadSymlinks    bool     `json:"read_symlinks,omitempty"`
+	StoreAbs        bool     `json:"store_abs,omitempty"`
+	ErrorOnFSErrors bool     `json:"error_on_fs_errors,omitempty"`
+	Disk            DiskPlan `json:"disk"`
 	// CancelAt: -1 = never; -2 = context already cancelled before Scan; k >= 0 = cancel() is
 	// called by the simulator when seam event k is recorded.
-	CancelAt int  `json:"cancel_at"`
-	Bubble   bool `json:"bubble,omitempty"` // run inside a synctest bubble (needed for latency)
+	CancelAt int `json:"cancel_at"`
+	// CancelDeadline: the cancellation is an expired deadline (Err() == context.DeadlineExceeded)
+	CancelDeadline bool `json:"cancel_deadline,omitempty"`
+	Bubble         bool `json:"bubble,omitempty"` // run inside a synctest bubble (needed for latency)
 	// Plans, when non-empty, restricts a fault/cancel-enumerating check to exactly these plans
 	// (set in replay files).
 	Plans   [][]Fault `json:"plans,omitempty"`
@@ -229,6 +232,11 @@ func execute(cfg *Config) (obs *Obs) {
 
 	ctx, cancel := context.WithCancel(context.Background())
 	defer cancel()
+	if cfg.CancelDeadline {
+		// the same instants, but the context ends the way an expired deadline ends it
+		dc := &deadlineCtx{Context: context.Background(), done: make(chan struct{})}
+		ctx, cancel = dc, dc.fire
+	}
 	if cfg.CancelAt == -2 {
 		cancel()
 	} else if cfg.CancelAt >= 0 {
@@ -332,4 +340,32 @@ func panicFrames(st string) string {
 		}
 	}
 	return strings.Join(keep, " <- ")
+}
+
+// deadlineCtx is a context that ends, when fire is called, the way an expired deadline ends one:
+// Err() reports context.DeadlineExceeded.  (A real deadline cannot be made to expire at a chosen
+// seam event.)
+type deadlineCtx struct {
+	context.Context
+	done  chan struct{}
+	mu    sync.Mutex
+	fired bool
+}
+
+func (c *deadlineCtx) Done() <-chan struct{} { return c.done }
+func (c *deadlineCtx) Err() error {
+	c.mu.Lock()
+	defer c.mu.Unlock()
+	if c.fired {
+		return context.DeadlineExceeded
+	}
+	return nil
+}
+func (c *deadlineCtx) fire() {
+	c.mu.Lock()
+	defer c.mu.Unlock()
+	if !c.fired {
+		c.fired = true
+		close(c.done)
+	}
 }
